@@ -1,6 +1,6 @@
 (* C01: the core CREATE TABLE fragment against the real keyword tables, flag logic and LALR tables. *)
 From Coq Require Import String Ascii List ZArith NArith PArith Bool Lia.
-From SDP Require Import Base PyStr LR Lexer Actions Parse RealTables Engine Seq SeqProofs KeywordProofs Entity EntityProofs Table.
+From SDP Require Import Base PyStr LR Lexer Actions Parse RealTables Engine Seq SeqProofs KeywordProofs Entity EntityProofs Table StrFacts.
 Import ListNotations.
 Open Scope list_scope.
 
@@ -518,9 +518,28 @@ Proof. intro H. unfold action; simpl. rewrite H. reflexivity. Qed.
 Lemma act_ctype2 norm w1 w2 : plain_type_word w1 = true -> plain_type_word w2 = true ->
   action norm "c_type -> id id" [PStr w1; PStr w2] = Ok (PDict [("type", PStr (w1 ++ " " ++ w2))])%string.
 Proof. intros H1 H2. unfold action; simpl. rewrite H1, H2. reflexivity. Qed.
-Lemma act_col norm n t : colname_bad n = false ->
+(* a plain type word does not mention IDENTITY, nor do two of them joined by a blank *)
+Lemma plain_no_identity w : plain_type_word w = true -> contains (upper w) "IDENTITY" = false.
+Proof.
+  unfold plain_type_word. intro H. repeat (apply andb_true_iff in H; destruct H as [H ?]).
+  match goal with X : negb (contains (upper w) "IDENTITY") = true |- _ => apply negb_true_iff in X; exact X end.
+Qed.
+Lemma plain2_no_identity w1 w2 : plain_type_word w1 = true -> plain_type_word w2 = true ->
+  contains (upper (w1 ++ " " ++ w2)) "IDENTITY" = false.
+Proof.
+  intros H1 H2. rewrite upper_app. change (upper (" " ++ w2))%string with (String " " (upper w2)).
+  apply contains_sep; [discriminate|reflexivity|apply plain_no_identity; exact H1|apply plain_no_identity; exact H2].
+Qed.
+Lemma act_col_gen norm n t : colname_bad n = false -> contains (upper t) "IDENTITY" = false ->
   action norm "column -> id c_type" [PStr n; PDict [("type", PStr t)]] = Ok (PDict [("name", PStr n); ("type", PStr t); ("size", PNone)])%string.
-Proof. intro H. unfold action; simpl. rewrite H. reflexivity. Qed.
+Proof. intros H Ht. unfold action; simpl. rewrite H. rewrite Ht. reflexivity. Qed.
+Lemma act_col norm n t : colname_bad n = false -> plain_type_word t = true ->
+  action norm "column -> id c_type" [PStr n; PDict [("type", PStr t)]] = Ok (PDict [("name", PStr n); ("type", PStr t); ("size", PNone)])%string.
+Proof. intros H Ht. apply act_col_gen; [exact H|apply plain_no_identity; exact Ht]. Qed.
+Lemma act_col_2 norm n w1 w2 : colname_bad n = false -> plain_type_word w1 = true -> plain_type_word w2 = true ->
+  action norm "column -> id c_type" [PStr n; PDict [("type", PStr (w1 ++ " " ++ w2))]]
+  = Ok (PDict [("name", PStr n); ("type", PStr (w1 ++ " " ++ w2)); ("size", PNone)])%string.
+Proof. intros H H1 H2. apply act_col_gen; [exact H|apply plain2_no_identity; assumption]. Qed.
 Lemma act_col_sz1 norm n t a z : isnumeric a = true -> int_of_string a = Some z ->
   action norm "column -> column LP id RP" [PDict [("name", n); ("type", t); ("size", PNone)]; PStr "("; PStr a; PStr ")"]
   = Ok (PDict [("name", n); ("type", t); ("size", PInt z)])%string.
@@ -537,7 +556,7 @@ Ltac step :=
   first [ rewrite exec_shift
         | rewrite exec_reduce; arities; cbn [firstn skipn rev app];
           first [ rewrite act_id' | rewrite act_ctype1 by assumption | rewrite act_ctype2 by assumption
-                | rewrite act_col by assumption | erewrite act_col_sz1 by eassumption | erewrite act_col_sz2 by eassumption
+                | rewrite act_col by assumption | rewrite act_col_2 by assumption | erewrite act_col_sz1 by eassumption | erewrite act_col_sz2 by eassumption
                 | rewrite act_defcol0 ];
           cbn [bind] ].
 
